@@ -22,6 +22,7 @@ path "rec/kv/*" { capabilities = ["read", "create", "update", "list"] }
 path "rec/kv/denied" { capabilities = ["deny"] }
 path "rec/lease/*" { capabilities = ["read"] }
 path "auth/token/create" { capabilities = ["update", "sudo"] }
+path "auth/token/create-orphan" { capabilities = ["update", "sudo"] }
 path "ns1/rec/kv/*" { capabilities = ["read", "create", "update", "list"] }
 path "ns1/rec/lease/*" { capabilities = ["read"] }
 `
@@ -79,6 +80,17 @@ func c19Do(s *Sys, tok, kind string, i int) c19Result {
 		resp, err = s.Req(tok, logical.ReadOperation, "auth/token/lookup-self", nil)
 	case "create":
 		resp, err = s.Req(tok, logical.UpdateOperation, "auth/token/create", map[string]interface{}{"policies": []string{"default"}})
+		if OK(resp, err) && resp != nil && resp.Auth != nil {
+			r.token = resp.Auth.ClientToken
+		}
+	case "create-orphan", "create-noparent":
+		// the endpoints that mint a token WITHOUT a parent (nothing is written under the
+		// creating token): the policy grants them with sudo
+		path, data := "auth/token/create-orphan", map[string]interface{}{"policies": []string{"default"}}
+		if kind == "create-noparent" {
+			path, data = "auth/token/create", map[string]interface{}{"policies": []string{"default"}, "no_parent": true}
+		}
+		resp, err = s.Req(tok, logical.UpdateOperation, path, data)
 		if OK(resp, err) && resp != nil && resp.Auth != nil {
 			r.token = resp.Auth.ClientToken
 		}
@@ -153,7 +165,7 @@ func c19Body(t *testing.T, img *Image, tok string, n int, kinds []string) sched.
 			// count: backend operation invocations (rec kinds) + successes of core-handled kinds
 			authorised = nInvoked
 			for _, r := range results {
-				if (r.kind == "lookup" || r.kind == "create") && r.ok {
+				if (r.kind == "lookup" || strings.HasPrefix(r.kind, "create")) && r.ok {
 					authorised++
 				}
 			}
@@ -170,8 +182,8 @@ func c19Body(t *testing.T, img *Image, tok string, n int, kinds []string) sched.
 			}
 			// ---- child creation never succeeds
 			for _, r := range results {
-				if r.kind == "create" && r.ok {
-					fail("child-created", "a use-limited token created a child token")
+				if strings.HasPrefix(r.kind, "create") && r.ok {
+					fail("child-created", fmt.Sprintf("a use-limited token created a token (%s)", r.kind))
 				}
 			}
 			// ---- after the last use the token is refused
@@ -301,7 +313,7 @@ func TestVerifC19(t *testing.T) {
 	// requests the core authorises outside the ordinary request path (sys/seal)
 	for n := 1; n <= 2; n++ {
 		img, tok := c19Image(t, n)
-		for _, final := range append(append([]string{}, c19Kinds...), "denied-seal") {
+		for _, final := range append(append([]string{}, c19Kinds...), "denied-seal", "create-orphan", "create-noparent") {
 			var kinds []string
 			for i := 0; i < n-1; i++ {
 				kinds = append(kinds, "lease")
